@@ -6,7 +6,7 @@ reg("C15",
     name="C15_capture", src=_SRC,
     anchor_files=["src/hgraph/runtime/node.cpp", "src/hgraph/runtime/node_error.cpp", "include/hgraph/runtime/node_error.h", "src/hgraph/types/graph_wiring.cpp"],
     quick=dict(defs=dict(MODE=0, NCYC=3, DMAX=2, TSCHED=1), symx=dict(shards=16, **{"max-wall": 900})),
-    thorough=dict(defs=dict(MODE=0, NCYC=4, DMAX=3, TSCHED=2), symx=dict(shards=16, **{"max-wall": 3000, "shard-depth": 8})),
+    thorough=dict(defs=dict(MODE=0, NCYC=4, DMAX=2, TSCHED=1), symx=dict(shards=16, **{"max-wall": 3000, "shard-depth": 8})),
     reach=["end", "no_throw", "throw", "throw_in_first_cycle", "throw_in_consecutive_evaluations", "normal_evaluation_after_throw",
            "thrower_woken_by_own_schedule", "throw_while_own_wakeup_pending", "two_nodes_throw", "two_nodes_throw_in_same_cycle"],
     bounds="per-node capture (Wiring::activate_error_capture via exception_time_series): src -> T (capturing compute node that also self-schedules) -> "
